@@ -49,10 +49,13 @@ struct Driver {
   World w;
   int inv_index = 0;
   int fork_index = 0;
+  int builds_done = 0;
   std::string& log;
 
   Driver(Tape& t, const Profile& p, RunResult& r) : tape(t), prof(p), rr(r), log(r.decoded) {}
   uint32_t H(uint32_t n) { return tape.Choice(ST_HIST, n); }
+  // per-mille coin; tape value 0 (shrunk) = the fault does not happen
+  bool Pm(int pm) { return (int)H(1000) >= 1000 - pm; }
 
   void Note(const std::string& s) { log += s + "\n"; }
 
@@ -88,28 +91,28 @@ struct Driver {
     p.explain = H(10) == 0;
     p.keeprsp = H(12) == 0;
     p.keepdepfile = H(12) == 0;
-    p.tty = (int)H(1000) < prof.pm_tty;
+    p.tty = Pm(prof.pm_tty);
     p.cols = 20 + (int)H(100);
     p.status_mode = (int)H(3);
-    if ((int)H(1000) < prof.pm_load) p.l = 1.0 + H(4);
-    if ((int)H(1000) < prof.pm_jobserver) {
+    if (Pm(prof.pm_load)) p.l = 1.0 + H(4);
+    if (Pm(prof.pm_jobserver)) {
       p.jobserver = true; p.j = -1; p.js_tokens = (int)H(4); p.js_peers = (int)H(3); p.nproc = 1 + (int)H(4);
     }
     // command failures
     for (const Stmt& s : w.sc.stmts) {
       if (!s.alive || s.phony || s.regen) continue;
-      uint32_t c = H(1000);
-      if ((int)c < prof.pm_cmd_fail) {
+      int c = 999 - (int)H(1000);
+      if (c < prof.pm_cmd_fail) {
         int code = 1 + (int)H(255);
         if (code == 130) code = 131;
         p.fail[s.id] = std::make_pair(code << 8, (int)H(3));
-      } else if ((int)c < prof.pm_cmd_fail + prof.pm_cmd_signal) {
+      } else if (c < prof.pm_cmd_fail + prof.pm_cmd_signal) {
         static const int kSig[] = {SIGSEGV, SIGKILL, SIGABRT};
         p.fail[s.id] = std::make_pair(kSig[H(3)], (int)H(3));
       }
     }
-    p.editor = (int)H(1000) < prof.pm_editor;
-    if ((int)H(1000) < prof.pm_interrupt) {
+    p.editor = Pm(prof.pm_editor);
+    if (Pm(prof.pm_interrupt)) {
       static const int kSig[] = {SIGINT, SIGTERM, SIGHUP};
       p.on_signal = kSig[H(3)] * 100 + (int)H(3);   // signal*100 + child reaction
     }
@@ -221,9 +224,11 @@ struct Driver {
     std::set<int> ran2;
     for (auto& x : r2.spawns) ran2.insert(x.stmt);
     // retried: a failed statement whose own prerequisites did not fail runs again
+    std::set<int> failed2;
+    for (auto& x : r2.spawns) if (x.reap_status != 0) failed2.insert(x.stmt);
     for (int fid : failed) {
       bool blocked = false;
-      for (int q : w.StmtClosure(fid)) if (failed.count(q)) blocked = true;
+      for (int q : w.StmtClosure(fid)) if (failed.count(q) || failed2.count(q)) blocked = true;
       if (!blocked && !ran2.count(fid) && r2.res.end == ProcResult::kExit) {
         // with -k1 another failure may have stopped the second build before it got there
         bool stopped_early = false;
@@ -255,7 +260,18 @@ struct Driver {
     Note(ResultText(r));
     if (getenv("SIM_SHOW_OUTPUT")) Note("  stdout: " + r.res.out + "\n  stderr: " + r.res.err);
     w.CheckAll(r);
-    if (!r.spawns.empty() && r.ok()) rr.stats.nontrivial["C01"] = true;
+    {
+      int ncmd = 0;
+      for (const Stmt& s : w.sc.stmts) if (s.alive && !s.phony) ncmd++;
+      // incremental: something was rebuilt and something was left alone
+      if (r.ok() && builds_done > 0 && !r.spawns.empty() && (int)r.spawns.size() < ncmd) {
+        rr.stats.nontrivial["C01"] = true;
+        rr.stats.nontrivial["C03"] = true;
+      }
+      builds_done++;
+    }
+    if (rr.stats.n["ordered_pairs"] > 0) rr.stats.nontrivial["C04"] = true;
+    if (rr.stats.n["j_full"] + rr.stats.n["pool_full"] + rr.stats.n["tokens_full"] > 0) rr.stats.nontrivial["C06"] = true;
     if (prof.check_convergence) CheckConvergence(r);
     CheckFailureFollowUp(r);
   }
